@@ -447,6 +447,7 @@ func init() {
 							continue
 						}
 						j := prog.IdentObj(ni, init.Lhs[0])
+						cond = orientCmp(cond, func(e ast.Expr) bool { return prog.IdentObj(ni, e) == j })
 						if !elemField(init.Rhs[0], "Start") || !elemField(cond.Y, "End") {
 							continue
 						}
@@ -544,7 +545,7 @@ func init() {
 			inspect(hd.Decl.Body, func(nd ast.Node) bool {
 				if as, ok := nd.(*ast.AssignStmt); ok && len(as.Rhs) == 1 && len(as.Lhs) == 1 {
 					if call, ok := isCallToNamed(info, as.Rhs[0], "slices", "IndexFunc"); ok && len(call.Args) == 2 {
-						if lit, ok := ast.Unparen(call.Args[1]).(*ast.FuncLit); ok && exprUsesField(info, lit.Body, idF) {
+						if lit := funcValueLit(r.P, info, call.Args[1]); lit != nil && exprUsesField(info, lit.Body, idF) {
 							own = prog.IdentObj(info, as.Lhs[0])
 						}
 					}
@@ -950,7 +951,11 @@ func init() {
 				bounded := false
 				inspect(is.Cond, func(m ast.Node) bool {
 					be, ok := m.(*ast.BinaryExpr)
-					if !ok || !r.isParam(nk, be.X, 0) {
+					if !ok {
+						return true
+					}
+					be = orientCmp(be, func(e ast.Expr) bool { return r.isParam(nk, e, 0) })
+					if !r.isParam(nk, be.X, 0) {
 						return true
 					}
 					if tv, ok := ni.Types[be.Y]; ok && tv.Value != nil {
